@@ -103,13 +103,13 @@ theorem end_code (w : World) (p : Pid) (val : Int) (stopped : Bool) :
 
 /-! ### a finished process stays silent in its own record, and never executes unless restarted -/
 
-/-- **I_dead, record part.**  The record of every process that is not running awaits nothing and is not suspended;
-    the record of every finished process is completely clean: nothing held, nothing awaited, nobody registered as
-    waiting for it, not suspended. -/
+/-- **I_dead, record part.**  The record of every process that is not running awaits nothing, is not suspended and
+    holds nothing; the record of every finished process is completely clean: moreover nobody is registered as waiting
+    for it. -/
 theorem deadRec_iff (w : World) :
     DeadRec w ↔ ∀ p, (w.proc p).status ≠ .running →
-      (w.proc p).awaits = [] ∧ (w.proc p).blocked = none ∧
-      ((w.proc p).status = .finished → (w.proc p).held = [] ∧ (w.proc p).waiters = []) :=
+      (w.proc p).awaits = [] ∧ (w.proc p).blocked = none ∧ (w.proc p).held = [] ∧
+      ((w.proc p).status = .finished → (w.proc p).waiters = []) :=
   Iff.rfl
 
 theorem deadRec_finished {w : World} (h : DeadRec w) (p : Pid) (hp : (w.proc p).status = .finished) :
@@ -119,7 +119,7 @@ theorem deadRec_finished {w : World} (h : DeadRec w) (p : Pid) (hp : (w.proc p).
 /-- it holds in every world in which the processes that are not running have empty records -/
 theorem deadRec_init (w : World) (h : ∀ p, (w.proc p).status ≠ .running →
     (w.proc p).awaits = [] ∧ (w.proc p).blocked = none ∧ (w.proc p).held = [] ∧ (w.proc p).waiters = []) : DeadRec w :=
-  fun p hp => ⟨(h p hp).1, (h p hp).2.1, fun _ => (h p hp).2.2⟩
+  fun p hp => ⟨(h p hp).1, (h p hp).2.1, (h p hp).2.2.1, fun _ => (h p hp).2.2.2⟩
 
 /-- every command executed by a running process keeps it -/
 theorem deadRec_execCmd {w : World} (h : DeadRec w) (p : Pid) (hrun : (w.proc p).status = .running) (c : Cmd) :
